@@ -18,6 +18,7 @@ value for that item and must rely on the correspondence run for it.
 import json, os, re, sys
 
 import translate_ctl
+import translate_text
 from translate_ctl import squash
 import translate_export
 import translate_serde
@@ -31,6 +32,7 @@ class Unrecognised(Exception):
 
 
 translate_ctl.Unrecognised = Unrecognised
+translate_text.Unrecognised = Unrecognised
 translate_export.Unrecognised = Unrecognised
 translate_serde.Unrecognised = Unrecognised
 translate_nom.Unrecognised = Unrecognised
@@ -811,16 +813,32 @@ def parse_common_flow_types(common):
     return out
 
 
+def blank_strings(s):
+    """string / raw-string / char literals replaced by empty ones (after strip_comments): text inside a literal is not code"""
+    s = re.sub(r'b?r(#*)".*?"\1', '""', s, flags=re.S)
+    s = re.sub(r'"(?:[^"\\]|\\.)*"', '""', s, flags=re.S)
+    return s
+
+
+PLAIN_STATIC_TY = re.compile(r"&?(?:'static)?(?:str|u8|u16|u32|u64|u128|usize|i8|i16|i32|i64|isize|bool|char|f64|\[&?(?:'static)?(?:str|u8|u16|u32|u64|usize|i32|i64|bool);?\w*\])")
+
+
 def scan_globals():
+    """state that outlives a call: `static mut`, lazily initialised or interior-mutable statics, thread locals.  A `static` whose type is a
+    plain scalar, a `&str` or an array / slice of those is a constant table, not state."""
     bad = []
     for root, _, files in os.walk(SRC):
-        for fn in files:
+        for fn in sorted(files):
             if fn.endswith(".rs"):
-                txt = strip_comments(open(os.path.join(root, fn)).read())
-                for pat in (r"\bstatic\s+mut\b", r"\bthread_local!", r"\bOnceLock\b", r"\blazy_static!", r"\bOnceCell\b", r"\bLazyLock\b", r"\bLazy\b",
-                            r"\bstatic\s+[A-Za-z_0-9]+\s*:\s*(?![&]?'?(?:static\s+)?(?:str|u8|u16|u32|u64|usize|i32|i64|bool|\[))"):
+                txt = blank_strings(strip_comments(open(os.path.join(root, fn)).read()))
+                for pat in (r"\bstatic\s+mut\b", r"\bthread_local\s*!", r"\bOnceLock\b", r"\blazy_static\s*!", r"\bOnceCell\b", r"\bLazyLock\b", r"\bLazy\b",
+                            r"\binclude\s*!", r"\binclude_str\s*!", r"\binclude_bytes\s*!"):
                     if re.search(pat, txt):
                         bad.append((fn, pat))
+                for m in re.finditer(r"\bstatic\s+([A-Za-z_0-9]+)\s*:\s*([^=;]+?)\s*[=;]", txt):
+                    ty = re.sub(r"\s+", "", m.group(2))
+                    if not PLAIN_STATIC_TY.fullmatch(ty):
+                        bad.append((fn, "static %s: %s" % (m.group(1), ty)))
     return bad
 
 
@@ -1052,6 +1070,9 @@ def gen():
     attempt("dispatch", f_dispatch)
     attempt("globals", lambda: scan_globals())
     attempt("shape_cfg", lambda: scan_cfg())
+    # ---- closure: token fingerprints of every source file, the file set and the manifest (translate_text.py)
+    for key, f in translate_text.items(SRC, strip_comments):
+        attempt(key, f)
     common = strip_comments(read("netflow_common.rs"))
     attempt("commonFlowTypes", lambda: parse_common_flow_types(common))
     attempt("shape_commonStatic", lambda: parse_common_static(common))
